@@ -225,8 +225,35 @@ func (m *refModel) checkSeq(prop string, recs []*beRec) {
 
 		case "walk":
 			m.checkWalk(rec, bad)
+
+		case "walkErr":
+			if !errors.Is(rec.walkErr, errWalkStop) {
+				if m.surelyHeld() > int(rec.op.SleepNs) {
+					bad(rec, "Walk whose callback failed must return that error, got (%d, %v)", rec.n, rec.walkErr)
+				}
+			} else if rec.n != len(rec.walk) {
+				bad(rec, "Walk stopped by a failing callback returned n=%d after %d successful callbacks", rec.n, len(rec.walk))
+			}
+
+		case "dumpErr":
+			if rec.err == nil && m.surelyHeld() > 0 && rec.op.SleepNs < 8 {
+				bad(rec, "Dump into a failing writer returned (%d, nil)", rec.n)
+			}
 		}
 	}
+}
+
+// surelyHeld counts entries the cache must still hold (a colliding later write may have cost the others).
+func (m *refModel) surelyHeld() int {
+	n := 0
+
+	for _, en := range m.m {
+		if !en.maybeLost {
+			n++
+		}
+	}
+
+	return n
 }
 
 func violClass(format string) string {
